@@ -150,6 +150,8 @@ def universes(tier, purpose="opt"):
              dict(n=4, k=1, T=2, labels=XY),
              dict(n=4, k=2, T=2, labels=["x"], sym=True),
              dict(n=5, k=1, T=2, labels=XY, sym=True)]
+    if purpose in ("struct", "cover") and tier == "quick":
+        U[0] = dict(U[0], sym=True)  # the largest 2-annotator universe: one representative per annotator swap
     if purpose == "backend":
         # one representative per annotator permutation (the back-end sees the same ILP up to column order)
         for u in U:
